@@ -152,7 +152,7 @@ def run(ctx):
             kw["penalty"] = 0.5
         ctx.count("grid_cases")
         one(ctx, dtw, dtw_cc, np, s1, s2, kw, psi_neg=bool(idx % 4 < 2), keep=bool(idx % 3 == 0), nd=0)
-    N = 350 if ctx.quick else 8000
+    N = ctx.scale(4500, 50000)
     for _ in range(N):
         r, c = rng.randint(1, 11), rng.randint(1, 11)
         if rng.random() < 0.3:
